@@ -606,6 +606,15 @@ pub proof fn lemma_C03_no_kept_line_loses_text(kept: Seq<Seq<char>>, i: int)
         }
     }
 }
+/// C03 FINDING (differs from inspect.cleandoc, which expands tabs to 8 columns first): indentation is the BYTE count of the
+/// removed leading whitespace - a tab counts 1, U+3000 counts 3.  `a` / `\tb` / `        c` is cleaned to
+/// `a` / `b` / `       c` (CPython: `a` / `b` / `c`)
+//@tags C03
+pub proof fn lemma_C03_FINDING_indent_is_byte_count_of_leading_whitespace(l: Seq<char>)
+    ensures indent_of(l) == blen(l.take(ts_n(l))), l =~= l.take(ts_n(l)) + trim_start_v(l),
+{
+    lemma_indent_nonneg(l);
+}
 /// C03: for a counted line the guard `line.len() > min_indent` always holds (the else-branch `line.trim_start()` is dead),
 /// assuming a non-blank line still has text after trim_start
 //@tags C03
